@@ -80,6 +80,15 @@ CHECKS = {
               "category pairs, random subsets in any case/spacing by flag and env, each compared with the filtered unrestricted run and with the model."),
         note="ASCII tokens. IMPL codes are compared metamorphically (filtered baseline) until the @implements model lands.",
         technique="Coq proof (exclusion commutes with both filtering disciplines) + metamorphic and model correspondence through the real binary"),
+    "C14": dict(
+        text=("Theorems (Coq): a file is skipped iff its name contains an exclude-paths entry or (scan-tests off and it ends in _test.go) - with substring/suffix proved to mean what they say; the "
+              "analysis of a package equals the analysis of the package with its excluded files removed, and more generally depends on the files only through the kept ones (annotations, @ignore "
+              "comments and statements of excluded files are irrelevant); every diagnostic of the four checkers stems from a kept file; _test.go files never receive TONL; obligation on the source "
+              "regenerated each run: Config.FilterFiles is the ONLY place that ranges over pass.Files. Tied to the code by worlds whose excluded files carry annotations/ignores/violations that "
+              "would matter, under 10 scan-tests x exclude-paths configurations: implementation = model, no diagnostic inside an excluded file, and identical diagnostics when the comments of all "
+              "excluded files are blanked."),
+        note="exclude-paths entries are substring matches on absolute file names (scratch paths are digits only).",
+        technique="Coq proof (file filter characterisation, analysis factors through kept files) + model and metamorphic correspondence through the real binary"),
 }
 
 PENDING_REASON = "check under construction in this round (designed in DESIGN.md section 5); not yet claimed"
